@@ -461,3 +461,180 @@ Theorem C16_kernel_intersect_short_buffer_unsafe :
           AVArrF []] = Err (OOB "idxcells" 0).
 Proof. exact @RefineIntersect.intersect_short_buffer_oob. Qed.
 Print Assumptions C16_kernel_intersect_short_buffer_unsafe.
+
+(* ================================================================== *)
+(* C16 ITSELF on the regenerated program: the property theorems above *)
+(* transported to exec_fun RR XRR program "c_intersect" / "c_voronoi" *)
+(* (Proofs/KernelIntersect.v).                                        *)
+(* ================================================================== *)
+From Coq Require Import String Lia PrimFloat.
+From Hy Require Import Base.Num Base.MiniC Gen.KernelsAst Gen.Consts Gen.ConstsC16 Model.Grid Model.Intersect.
+From Hy Require Proofs.KernelIntersect.
+Import ListNotations.
+Open Scope string_scope.
+Open Scope list_scope.
+Open Scope Z_scope.
+
+(* run_intersect = the execution of the translated c_intersect *)
+Theorem C16_kernel_run_intersect :
+  forall (n : nat) (nrows ncols : Z) (xll yll csz csz_area : R) (xys : list (R * R)) 
+         (np0 : Z) (idx0 : list Z) (w0 : list R),
+       KernelIntersect.run_intersect n nrows ncols xll yll csz csz_area xys np0 idx0 w0 =
+       exec_fun RR XRR program (S n) "c_intersect"
+         [AVI nrows; AVI ncols; AVF xll; AVF yll; AVF csz; AVF csz_area; 
+          AVI (zlen xys); AVArrF (RefineIntersect.flat2 xys); AVI (zlen idx0); 
+          AVArrI [np0]; AVArrI idx0; AVArrF w0].
+Proof. exact @KernelIntersect.run_intersect_is_exec. Qed.
+Print Assumptions C16_kernel_run_intersect.
+
+(* run_voronoi = the execution of the translated c_voronoi *)
+Theorem C16_kernel_run_voronoi :
+  forall (n : nat) (nrows ncols : Z) (xll yll csz : R) (cells : list Z) 
+         (pts : list (R * R)) (w0 : list R),
+       KernelIntersect.run_voronoi n nrows ncols xll yll csz cells pts w0 =
+       exec_fun RR XRR program (S n) "c_voronoi"
+         [AVI nrows; AVI ncols; AVF xll; AVF yll; AVF csz; AVI (zlen cells); 
+          AVArrI cells; AVI (zlen pts); AVArrF (RefineIntersect.flat2 pts); 
+          AVArrF w0].
+Proof. exact @KernelIntersect.run_voronoi_is_exec. Qed.
+Print Assumptions C16_kernel_run_voronoi.
+
+(* csz > 0, buffers of nrows*ncols entries: the cells written by the translated c_intersect are pairwise distinct and are exactly the valid cells whose footprint holds a point; weight = (csz_area/csz)^2 x number of points in the footprint; the per-cell counts add up to the number of points inside the grid; sum(weights) x csz^2 = that number x csz_area^2 *)
+Theorem C16_kernel_intersect_weights :
+  forall (nrows ncols : Z) (xll yll csz csz_area : R) (xys : list (R * R)) 
+         (np0 : Z) (idx0 : list Z) (w0 : list R) (n : nat),
+       (0 < csz)%R ->
+       nrows <= RefineIntersect.MAXLL ->
+       ncols <= RefineIntersect.MAXLL ->
+       Datatypes.length w0 = Datatypes.length idx0 ->
+       Z.max 0 (nrows * ncols) <= Z.of_nat (Datatypes.length idx0) ->
+       (Datatypes.length xys + 2 < n)%nat ->
+       exists (cells : list Z) (ws : list R),
+         KernelIntersect.run_intersect n nrows ncols xll yll csz csz_area xys np0 idx0 w0 =
+         Ok
+           (RI 0,
+            [VArrF (RefineIntersect.flat2 xys); VArrI [Z.of_nat (Datatypes.length cells)];
+             VArrI (cells ++ skipn (Datatypes.length cells) idx0);
+             VArrF (ws ++ skipn (Datatypes.length cells) w0)]) /\
+         Datatypes.length ws = Datatypes.length cells /\
+         (Datatypes.length cells <= Datatypes.length idx0)%nat /\
+         NoDup cells /\
+         (forall k : Z,
+          In k cells <->
+          (exists row col : Z,
+             0 <= col < ncols /\
+             0 <= row < nrows /\
+             k = row * ncols + col /\
+             (exists xy : R * R,
+                In xy xys /\ IntersectProofs.in_footprint nrows xll yll csz row col xy))) /\
+         (forall (row col : Z) (w : R),
+          0 <= col < ncols ->
+          0 <= row < nrows ->
+          In (row * ncols + col, w) (combine cells ws) ->
+          (0 <
+           IntersectProofs.countb (IntersectProofs.in_footprint_b nrows xll yll csz row col) xys)%nat /\
+          w =
+          (csz_area / csz * (csz_area / csz) *
+           INR
+             (IntersectProofs.countb (IntersectProofs.in_footprint_b nrows xll yll csz row col) xys))%R) /\
+         fold_right Nat.add 0%nat
+           (map
+              (fun k : Z =>
+               IntersectProofs.countb
+                 (fun xy : R * R => coord2cell RR nrows ncols xll yll csz xy =? k) xys) cells) =
+         IntersectProofs.countb (IntersectProofs.in_extent_b nrows ncols xll yll csz) xys /\
+         (IntersectProofs.Rsum ws * (csz * csz))%R =
+         (INR (IntersectProofs.countb (IntersectProofs.in_extent_b nrows ncols xll yll csz) xys) *
+          (csz_area * csz_area))%R.
+Proof. exact @KernelIntersect.kernel_intersect_weights. Qed.
+Print Assumptions C16_kernel_intersect_weights.
+
+(* the weighted area never exceeds the catchment area, with equality when the grid covers every centre *)
+Theorem C16_kernel_intersect_area_bounds :
+  forall (nrows ncols : Z) (xll yll csz csz_area : R) (xys : list (R * R)) 
+         (np0 : Z) (idx0 : list Z) (w0 : list R) (n : nat),
+       (0 < csz)%R ->
+       nrows <= RefineIntersect.MAXLL ->
+       ncols <= RefineIntersect.MAXLL ->
+       Datatypes.length w0 = Datatypes.length idx0 ->
+       Z.max 0 (nrows * ncols) <= Z.of_nat (Datatypes.length idx0) ->
+       (Datatypes.length xys + 2 < n)%nat ->
+       exists (cells : list Z) (ws : list R),
+         KernelIntersect.run_intersect n nrows ncols xll yll csz csz_area xys np0 idx0 w0 =
+         Ok
+           (RI 0,
+            [VArrF (RefineIntersect.flat2 xys); VArrI [Z.of_nat (Datatypes.length cells)];
+             VArrI (cells ++ skipn (Datatypes.length cells) idx0);
+             VArrF (ws ++ skipn (Datatypes.length cells) w0)]) /\
+         (IntersectProofs.Rsum ws * (csz * csz) <=
+          INR (Datatypes.length xys) * (csz_area * csz_area))%R /\
+         ((forall xy : R * R, In xy xys -> IntersectProofs.in_extent nrows ncols xll yll csz xy) ->
+          (IntersectProofs.Rsum ws * (csz * csz))%R =
+          (INR (Datatypes.length xys) * (csz_area * csz_area))%R).
+Proof. exact @KernelIntersect.kernel_intersect_area_bounds. Qed.
+Print Assumptions C16_kernel_intersect_area_bounds.
+
+(* valid catchment cells, >= 1 point: the translated c_voronoi returns one weight per point = fraction of the cells nearest to it; weights in [0,1] summing to 1 *)
+Theorem C16_kernel_voronoi_weights :
+  forall (nrows ncols : Z) (xll yll csz : R) (cells : list Z) (pts : list (R * R))
+         (w0 : list R) (n : nat),
+       pts <> [] ->
+       cells <> [] ->
+       1 <= nrows ->
+       1 <= ncols ->
+       (forall c : Z, In c cells -> 0 <= c < nrows * ncols) ->
+       Datatypes.length w0 = Datatypes.length pts ->
+       (Nat.max (Datatypes.length cells) (Datatypes.length pts) + 1 < n)%nat ->
+       exists ws : list R,
+         KernelIntersect.run_voronoi n nrows ncols xll yll csz cells pts w0 =
+         Ok (RI 0, [VArrI cells; VArrF (RefineIntersect.flat2 pts); VArrF ws]) /\
+         Datatypes.length ws = Datatypes.length pts /\
+         (forall q : Z,
+          0 <= q < Z.of_nat (Datatypes.length pts) ->
+          zn ws q 0%R =
+          (INR
+             (IntersectProofs.countb
+                (fun c : Z =>
+                 nearest RR VORONOI_DISTMAX_R (getcoord RR nrows ncols xll yll csz c) pts =? q)
+                cells) / INR (Datatypes.length cells))%R) /\
+         (forall w : R, In w ws -> (0 <= w)%R) /\
+         (forall q : Z, 0 <= q < Z.of_nat (Datatypes.length pts) -> (zn ws q 0 <= 1)%R) /\
+         IntersectProofs.Rsum ws = 1%R.
+Proof. exact @KernelIntersect.kernel_voronoi_weights. Qed.
+Print Assumptions C16_kernel_voronoi_weights.
+
+(* no point, an empty grid or an invalid catchment cell: positive return code *)
+Theorem C16_kernel_voronoi_rejects :
+  forall (nrows ncols : Z) (xll yll csz : R) (cells : list Z) (pts : list (R * R))
+         (w0 : list R) (n : nat),
+       Datatypes.length w0 = Datatypes.length pts ->
+       (Nat.max (Datatypes.length cells) (Datatypes.length pts) + 1 < n)%nat ->
+       pts = [] \/ nrows < 1 \/ ncols < 1 \/ (exists c : Z, In c cells /\ ~ 0 <= c < nrows * ncols) ->
+       exists (code : Z) (ws : list R),
+         0 < code /\
+         KernelIntersect.run_voronoi n nrows ncols xll yll csz cells pts w0 =
+         Ok (RI code, [VArrI cells; VArrF (RefineIntersect.flat2 pts); VArrF ws]).
+Proof. exact @KernelIntersect.kernel_voronoi_rejects. Qed.
+Print Assumptions C16_kernel_voronoi_rejects.
+
+(* non-vacuity: the instance above executed on the translated kernel: one cell, weight 1/2 *)
+Theorem C16_kernel_intersect_example :
+  KernelIntersect.run_intersect 6 1 1 0 0 2 1
+         [((1 / 2)%R, (1 / 2)%R); ((3 / 2)%R, (1 / 2)%R); (5%R, 5%R)] 0 [0] [0%R] =
+       Ok
+         (RI 0,
+          [VArrF [(1 / 2)%R; (1 / 2)%R; (3 / 2)%R; (1 / 2)%R; 5%R; 5%R]; 
+           VArrI [1]; VArrI [0]; VArrF [(1 / 2)%R]]).
+Proof. exact @KernelIntersect.kernel_intersect_example. Qed.
+Print Assumptions C16_kernel_intersect_example.
+
+(* non-vacuity: three cells, two points *)
+Theorem C16_kernel_voronoi_example :
+  exists ws : list R,
+         KernelIntersect.run_voronoi 5 2 2 0 0 1 [0; 1; 2] [((1 / 2)%R, (3 / 2)%R); (3%R, 3%R)]
+           [0%R; 0%R] =
+         Ok (RI 0, [VArrI [0; 1; 2]; VArrF [(1 / 2)%R; (3 / 2)%R; 3%R; 3%R]; VArrF ws]) /\
+         Datatypes.length ws = 2%nat /\
+         (forall w : R, In w ws -> (0 <= w)%R) /\ IntersectProofs.Rsum ws = 1%R.
+Proof. exact @KernelIntersect.kernel_voronoi_example. Qed.
+Print Assumptions C16_kernel_voronoi_example.
